@@ -194,13 +194,15 @@ def build(tier="quick", seed=0):
             fp = AbsFile(it, mode="wb")
             w = it.call(av.g["AvroWriter"], [fp], {})
             it.call(it.getattr_(w, "write"), [it.call(A, [], {"n": 1})], {})
-            try:
-                it.call(it.getattr_(w, "write"), [it.call(B, [], {"n": 2})], {})
-                outcome = "written"
-            except PyRaise as e:
-                outcome = "raised " + e.cls_name
+            outcomes = []
+            for attempt in range(3):  # the caller carries on after the refusal and offers records of the second type again
+                try:
+                    it.call(it.getattr_(w, "write"), [it.call(B, [], {"n": 2 + attempt})], {})
+                    outcomes.append("written")
+                except PyRaise as e:
+                    outcomes.append("raised " + e.cls_name)
             it.call(it.getattr_(w, "close"), [], {})
-            return outcome, container_records(fp)
+            return ("raised Exception" if all(o == "raised Exception" for o in outcomes) else str(outcomes)), container_records(fp)
         return th
 
     for same in (False, True):
